@@ -126,6 +126,17 @@ def gen_form(rng, fid):
                 return n
         return None
 
+    # a few wide forms: more than 32 fields in one value set
+    wide = f.kind != "Enabled" and rng.random() < 0.04
+    if wide:
+        for w in range(rng.randint(33, 40)):
+            k = rng.choice([p for p in PLAIN if p[0] in ("u8", "i16", "u64", "i64", "bool", "str", "f64", "u128")])
+            fields_src.append(f"w{w} = ctr.tick({ticks}, {k[1]})")
+            expect.append(([f"w{w}"], k[2]))
+            declared.append([f"w{w}"])
+            methods.add(k[3])
+            ticks += 1
+        nfields = 0
     for _ in range(nfields):
         form = rng.choice(["ident", "ident", "ident", "dotted", "literal", "const", "raw", "short", "short_sigil", "empty"] if f.kind != "Enabled" else ["ident", "dotted"])
         if f.kind == "Enabled":
